@@ -87,8 +87,10 @@ func (c *vrtConn) Write(p []byte) (n int, err error) {
 		if c.stream {
 			need = 2
 		}
+		// ... and, if the server closes right after that reply, until the reader has seen the EOF
+		// and closed the connection (reply and close both consumed "during the send")
 		vrtAwait(func() bool {
-			return vrtOr(c.closed, vrtAnd(c.replied >= k, c.readEntries >= c.markEntries+need))
+			return vrtOr(c.closed, vrtAnd(c.replied >= k, c.readEntries >= c.markEntries+need, !c.eof))
 		}, func() {})
 	}
 	return
@@ -99,9 +101,18 @@ func (c *vrtConn) Close() error {
 	return nil
 }
 
-func (c *vrtConn) SetDeadline(t time.Time) error      { return nil }
-func (c *vrtConn) SetReadDeadline(t time.Time) error  { return nil }
-func (c *vrtConn) SetWriteDeadline(t time.Time) error { return nil }
+// deadlines never fire in these harnesses; like a real socket, setting one on a closed connection fails
+func (c *vrtConn) setDeadline() (err error) {
+	vrtAtomic(func() {
+		if c.closed {
+			err = vrtErrUse
+		}
+	})
+	return
+}
+func (c *vrtConn) SetDeadline(t time.Time) error      { return c.setDeadline() }
+func (c *vrtConn) SetReadDeadline(t time.Time) error  { return c.setDeadline() }
+func (c *vrtConn) SetWriteDeadline(t time.Time) error { return c.setDeadline() }
 
 // serverSend queues one reply (called inside an atomic environment step).
 func (c *vrtConn) serverSend(payload []byte) {
